@@ -21,7 +21,9 @@ const FS_FAULTS: &[&str] = &[
     "wrong_case_ext",
     "only_side_files",
     "stale_output",
+    "odd_dir_name",
 ];
+const ODD_NAMES: &[&str] = &["Proyecto [rev2]", "casa (copia) 1", "obra?", "edif*", "Año 2024 ñ", "a b\tc"];
 const RUST_LOGS: &[Option<&str>] = &[None, None, Some("error"), Some("warn"), Some("info"), Some("debug"), Some("trace")];
 const PATH_FORMS: &[&str] = &["abs", "abs", "rel", "dot_rel", "trailing_slash", "symlink"];
 
@@ -44,6 +46,7 @@ fn env_case(rng: &mut Rng, projects: &[String], faults: bool) -> Value {
         "tool": tool,
         "use_extra": tool == "hulc2model" && rng.chance(1, 2),
         "fs": fs,
+        "odd_name": rng.pick(ODD_NAMES),
         "rust_log": rng.pick(RUST_LOGS),
         "path_form": rng.pick(PATH_FORMS),
         "hash_seed": rng.next_u64() % 1_000_000,
@@ -170,6 +173,11 @@ pub fn run(tier: &str, seed: u64, replay: Option<String>) -> i32 {
         for (tool, extra) in [("hulc2model", false), ("hulc2model", true), ("thor", false)] {
             env_jobs.push(json!({"t":"env","project":p,"tool":tool,"use_extra":extra,"fs":[],"rust_log":Value::Null,
                 "path_form":"abs","hash_seed":0,"fake_time":Value::Null,"lang":Value::Null,"thor_r":true,"thor_v":0}));
+        }
+        // a project kept in a directory with an unusual name, reached through a symlink and a relative path
+        for (form, name) in [("symlink", "Proyecto [rev2]"), ("rel", "casa (copia) 1")] {
+            env_jobs.push(json!({"t":"env","project":p,"tool":"hulc2model","use_extra":false,"fs":["odd_dir_name"],"odd_name":name,"rust_log":Value::Null,
+                "path_form":form,"hash_seed":0,"fake_time":Value::Null,"lang":Value::Null,"thor_r":false,"thor_v":0}));
         }
         // re-export in place: the -o / -r paths already hold an older, longer file
         env_jobs.push(json!({"t":"env","project":p,"tool":"thor","use_extra":false,"fs":["stale_output"],"rust_log":Value::Null,
